@@ -200,6 +200,16 @@ def eval_tree(v, asg):
 
 
 def check_status_machine(ctx, prog, I, squares):
+    # the type of the moved piece is a chain over five type bits: keep comparisons on it exact (K = 4 would make `== Rabbit` opaque)
+    saveK = B.K
+    B.K = 6
+    try:
+        return _check_status_machine(ctx, prog, I, squares)
+    finally:
+        B.K = saveK
+
+
+def _check_status_machine(ctx, prog, I, squares):
     ctx.rule('C12', 'after a step of the piece on s (type T): enemy piece and not completing a pull -> MustCompletePush(s, T); '
                     'own non-rabbit piece and no push was pending -> PossiblePull(s, T); otherwise None. A step completes a '
                     'pull iff the previous status is PossiblePull(q, P), the enemy piece steps into q, and P > T strictly')
@@ -231,9 +241,11 @@ def check_status_machine(ctx, prog, I, squares):
                     bad = None
                     for own in (True, False):
                         for T in G.STRENGTH:
-                            asg = {('p1', s): 1 if (own == gold) else 0}
+                            # a consistent board around the step: a piece of type T stands on s, the destination is empty
+                            asg = {('p1', s): 1 if (own == gold) else 0, ('all', s): 1, ('all', dst): 0, ('p1', dst): 0}
                             for t, var in TYPE_VAR.items():
                                 asg[(var, s)] = 1 if t == T else 0
+                                asg[(var, dst)] = 0
                             leaf = eval_tree(pps, asg)
                             if leaf is None:
                                 bad = 'status depends on more than colour and type of the moved piece'
